@@ -362,6 +362,15 @@ func (r *rng) c19Cases(tier string) []c19case {
 				if rep == 0 {
 					// the same stream read from a file (the FileName source has its own goroutine and error path)
 					add(c19case{lines: append([]c19line{}, ls...), n: ns[r.intn(3)], mode: "file"})
+					if k <= 3 && strings.TrimSpace(bad) != "" {
+						// and followed (tail -f): a third source goroutine with its own parse-error path; every line
+						// ends in a newline so that the follower sees it as complete
+						fl := append([]c19line{}, ls...)
+						for i := range fl {
+							fl[i].term = "\n"
+						}
+						add(c19case{lines: fl, n: ns[r.intn(3)], mode: "follow"})
+					}
 				}
 			}
 		}
@@ -522,6 +531,15 @@ func c19RunJSON(o *out, id int, c c19case, dir string) error {
 		}
 		defer os.Remove(fn)
 		opts.FileName = fn
+	case "follow":
+		// tail -f of a file (only used with inputs that contain a malformed line: the call then returns by itself)
+		fn := filepath.Join(dir, fmt.Sprintf("c19in.%d.json", id))
+		if err := ioutil.WriteFile(fn, input, 0600); err != nil {
+			return err
+		}
+		defer os.Remove(fn)
+		opts.FileName = fn
+		opts.Follow = true
 	case "slow":
 		var pieces [][]byte
 		for _, l := range bytes.SplitAfter(input, []byte("\n")) {
